@@ -106,6 +106,7 @@ class Interp:
         # condition objects that are built once and used by several steps (['named', i])
         self.named = [self.cond(e) for e in o.get('conds', [])]
         self.pipes = []
+        self.ctxs = {}
         for spec in o.get('pipes', []):
             self.pipes.append(UnboundedPipe() if spec.get('unbounded') else Pipe(num(spec['thr'])))
 
@@ -538,7 +539,12 @@ class Interp:
             ev(name, idx, 'acquiring', (st['amounts'], dict(src.levels)))
             phase = ['acquiring']
             try:
-                ctx = src.borrow(**st['amounts']) if op == 'borrow' else src.claim(**st['amounts'])
+                if st.get('obj') and st['obj'] in self.ctxs:
+                    ctx = self.ctxs[st['obj']]             # the same borrow object entered once more
+                else:
+                    ctx = src.borrow(**st['amounts']) if op == 'borrow' else src.claim(**st['amounts'])
+                    if st.get('obj'):
+                        self.ctxs[st['obj']] = ctx
                 async with ctx as handle:
                     phase[0] = 'held'
                     if st.get('as'):
@@ -782,6 +788,16 @@ def execute(prog, probe=None, wall=60, faults=(), sample=False, observe=None, ho
                 it.samples.append((k, loop.time, it.seq,
                                    {n: (t.status.name, bool(t.done)) for n, t in it.tasks.items()}))
             for f in by_k.get(k, ()):
+                if f.get('kind') == 'flag':
+                    # a notification fired by "somebody" exactly at this activation boundary (interrupts until(flag) blocks
+                    # without ending the activity that is inside)
+                    fl = it.flags[f['i']]
+                    it.ev('harness', (), 'set_begin', (f['i'], True))
+                    if not fl:
+                        fl._value = True
+                        fl.__trigger__()
+                    it.fault_log.append((k, 'flag%d' % f['i'], it.seq, loop.time, 'FLAG', ()))
+                    continue
                 t = it.tasks.get(f['target'])
                 if t is None:
                     it.fault_log.append((k, f['target'], it.seq, loop.time, None, tuple(f.get('token', ()))))
